@@ -17,6 +17,8 @@ from pyvc import core
 from pyvc.api import (PathEnd, XDataset, add_var, attr, call, cls, expect_ok, expect_raise, fn, method, new_interp,
                       outcome, sym_array, sym_size)
 from pyvc.interp import ClassInfo, Obj, exc_matches
+from pyvc.core import mk_bool, zint
+import z3
 from pyvc.lib import numpy_ as np
 from pyvc.loader import SRC_ROOT
 
@@ -125,6 +127,10 @@ def scenarios(tier):
             for reg in (('A', 'B'), ('B', 'A')):
                 out.append({'name': f'registration[{VARIANTS[vi][0]}, toy A={a}, toy B={b}, registered {reg}]', 'fn': 'scn_registered',
                             'kwargs': {'vi': vi, 'a': a, 'b': b, 'reg': reg}})
+    for vi in base_variants:
+        for reg in (('A', 'B'), ('B', 'A')):
+            out.append({'name': f'registration[{VARIANTS[vi][0]}, toy conventions answering any integer, registered {reg}]', 'fn': 'scn_registered_any',
+                        'kwargs': {'vi': vi, 'reg': reg}})
     for vi in base_variants + [TIE_VARIANT]:
         for name in ENTRY_ORDER:
             out.append({'name': f'registration of an entry-point class by hand[{VARIANTS[vi][0]}, register {name}]', 'fn': 'scn_register_known',
@@ -262,6 +268,37 @@ def scn_registered(c, vi, a, b, reg):
     expect_ok(c, 're-registration', lambda: call(it, register, toys[reg[0]]))
     again = expect_ok(c, 'detection after re-registration', lambda: call(it, g, ds))
     c.check('registering a class twice changes nothing', again is after)
+
+
+def scn_registered_any(c, vi, reg):
+    """check_dataset may answer any integer (the Specificity members are only names for three of them): two registered conventions answer
+    arbitrary integers a and b; the winner has the highest answer, ties go to registered classes in registration order, then entry points."""
+    it = new_interp()
+    ds, expected = _dataset(c, vi)
+    c.entry_points = _entry_points(it)
+    a, b = c.fresh_int('spec_a'), c.fresh_int('spec_b')
+    env = it.run_snippet('emsarray.conventions._base', TOY_SRC, {'TOY': {'A': a, 'B': b}})
+    toys = {'A': env['ToyA'], 'B': env['ToyB']}
+    register = fn(it, 'emsarray.conventions._registry', 'register_convention')
+    g = fn(it, 'emsarray.conventions._registry', 'get_dataset_convention')
+    for k in reg:
+        expect_ok(c, 'register_convention returns', lambda: call(it, register, toys[k]))
+    got = expect_ok(c, 'detection returns', lambda: call(it, g, ds))
+    name = got.name if isinstance(got, ClassInfo) else None
+    # candidates in tie-break order: registered classes in registration order, then the entry points in their order
+    cands = [('Toy' + k, {'A': a, 'B': b}[k]) for k in reg] + [(n, expected[n]) for n in ENTRY_ORDER if expected.get(n) is not None]
+    names = [n for n, _ in cands]
+    c.check('some convention handles the dataset (both toy conventions match)', name in names)
+    if name not in names:
+        return
+    r = names.index(name)
+    sr = zint(cands[r][1])
+    goal = []
+    for x, (n, sx) in enumerate(cands):
+        if x != r:
+            goal.append(sr > zint(sx) if x < r else sr >= zint(sx))
+    c.check('the winner has the highest answer of all matching conventions, whatever integers they answer; ties go to the earlier one in '
+            '(registered in registration order, then entry points) order', mk_bool(z3.And(*goal)) if goal else True, note=f'winner {name}')
 
 
 def _accessors(c, it):
